@@ -394,4 +394,45 @@ ToIntOK(ty, x, r) ==
   IN IF fits THEN BigIs(r, t) ELSE Chk(IsNone(r), "out-of-range-must-be-none")
 IsIntegerOK(x, r) == BoolIs(r, x.sc <= 0 \/ LowAllZero(x.d, x.sc))
 FromIntOK(v, r) == RepIs(r, Mk(v.s, v.m, 0))
+
+\* ---------------------------------------------------------------- C17: serde
+JsonNumPrefix == <<123, 34, 118, 34, 58>>          \* {"v":
+JsonNull == <<110, 117, 108, 108>>
+AbsZ(z) == ZMk(z.s * z.s, z.m)
+OverSerdeLimit(pv, c) == c.serdeLimit > 0 /\ ZLt(ZOfInt(c.serdeLimit), AbsZ(pv.z))
+IsBack(b, pv) == IsD(b) /\ WOf(b.d) = pv
+\* serialize x, deserialize the document again
+SerdeRoundTripOK(form, a, r, c) ==
+  IF "ser_err" \in DOMAIN r THEN Bad("serialization-failed")
+  ELSE IF "doc" \notin DOMAIN r \/ "back" \notin DOMAIN r THEN Bad("outcome-kind")
+  ELSE LET adapter == form \in {"json_num", "json_num_option"}
+           doc == r.doc
+           shapeOK == IF adapter
+                      THEN Len(doc) > 6 /\ SubSeq(doc, 1, 5) = JsonNumPrefix /\ doc[Len(doc)] = 125
+                      ELSE IsPlainJsonString(doc)
+           num == IF adapter THEN SubSeq(doc, 6, Len(doc) - 1) ELSE Unquote(doc)
+       IN IF ~shapeOK THEN Bad("document-shape")
+          ELSE IF ~IsNumeral(num) \/ (adapter /\ ~IsJsonNumber(num)) THEN Bad("not-a-number-document")
+          ELSE IF ~FmtRelOK("display", a, num, c) THEN Bad("serialized-text-does-not-denote-the-decimal")
+          ELSE LET pv == ParseValue(num) IN
+               IF adapter /\ OverSerdeLimit(pv, c) THEN Chk(IsErr(r.back), "scale-limit-not-enforced")
+               ELSE Chk(IsBack(r.back, pv) /\ WValEq(pv, a), "does-not-round-trip")
+SerdeNoneOK(r) ==
+  IF "doc" \notin DOMAIN r THEN Bad("outcome-kind")
+  ELSE Chk(r.doc = JsonNumPrefix \o JsonNull \o <<125>> /\ IsNone(r.back), "null-round-trip")
+\* deserialize a JSON document: numbers and numeric strings digit for digit, everything else an error value
+DeJsonOK(form, rawdoc, r, c) ==
+  LET adapter == form \in {"json_num", "json_num_option"}
+      doc == TrimWs(rawdoc) IN
+  IF IsJsonNumber(doc)
+  THEN IF ~IsNumeral(doc) THEN Chk(IsErr(r), "must-be-error")
+       ELSE IF adapter /\ OverSerdeLimit(ParseValue(doc), c) THEN Chk(IsErr(r), "scale-limit-not-enforced")
+       ELSE Chk(IsBack(r, ParseValue(doc)), "number-not-read-digit-for-digit")
+  ELSE IF IsPlainJsonString(doc) /\ form # "json_num_option"
+  THEN LET inner == Unquote(doc) IN
+       IF ~IsNumeral(inner) THEN Chk(IsErr(r), "must-be-error")
+       ELSE IF adapter /\ OverSerdeLimit(ParseValue(inner), c) THEN Chk(IsErr(r), "scale-limit-not-enforced")
+       ELSE Chk(IsBack(r, ParseValue(inner)), "numeric-string-not-read-digit-for-digit")
+  ELSE IF doc = JsonNull /\ form = "json_num_option" THEN Chk(IsNone(r), "null-is-none")
+  ELSE Chk(IsErr(r), "must-be-error")
 =============================================================================
